@@ -11,7 +11,7 @@ api   = {"namespaces": [{"name", "imports": [..], "annTypes": [{"name", "params"
                      "catchAll": bool}],
           "aliases": [{"name", "ty", "redact"}],
           "routes": [{"name", "version", "deprecated", "arg", "result", "error", "attrs": [[key, "plain" | "tagRef" | "timestamp"] ..]}]}]}
-field = {"name", "ty", "dflt": null | ["lit"] | ["tag", ns, name, tag], "caller": null | str, "redact": bool}
+field = {"name", "ty", "dflt": null | ["lit"] | ["tag", ty, tag], "caller": null | str, "redact": bool}
 ty    = ["prim"] | ["void"] | ["user", ns, name] | ["alias", ns, name] | ["list", ty] | ["map", ty, ty] | ["nullable", ty]
 stmt  = {"k": "imp", "m"} | {"k": "cls", "name", "base": ref | null, "body": [..], "ctor": [..] | null}
       | {"k": "assign", "t", "a": str | null, "copy": ref | null, "uses": [ref ..]} | {"k": "expr", "uses": [ref ..]}
@@ -52,7 +52,7 @@ def dfltOf (j : Json) : Except String (Option Dflt) := do
   | .null => pure none
   | v => match (← v.getArr?).toList with
     | [_] => pure (some .lit)
-    | [_, a, b, c] => pure (some (.tag (← a.getStr?) (← b.getStr?) (← c.getStr?)))
+    | [_, t, c] => pure (some (.tag (← tyOf t) (← c.getStr?)))
     | _ => throw "bad default"
 
 def fieldOf (j : Json) : Except String Field := do
